@@ -30,6 +30,8 @@ B4 = ['8.8.8.8']
 C6 = ['2a01:4f8:c0c:1::1', '2a01:4f8:c0c:2::9', '2a01:4f8:c0c:ff::3']
 PRIVATE = ['192.168.1.5', '10.1.2.3']
 HOSTS = [('foo.example.com', '23.45.77.7'), ('bar.example.org', None), ('baz.example.net', '9.9.9.9')]
+# clearnet names that merely CONTAIN a label "onion", resolving into the first /16
+ONIONISH = [('onion.example.net', '23.45.78.1'), ('eu.Onion.example.org', '23.45.79.1')]
 STATE_TIMES = {'good': NOW - 10, 'stale': NOW - STALE - 100, 'never': 0, 'bad': NOW - 10}
 
 
@@ -137,6 +139,9 @@ def population(case):
         if st != 'absent':
             peers.append(mk_peer(host, st))
     for (host, ip), st in zip(HOSTS, case['h']):
+        if st != 'absent':
+            peers.append(mk_peer(host, st, ip_addr=ip))
+    for (host, ip), st in zip(ONIONISH, case.get('o', ())):
         if st != 'absent':
             peers.append(mk_peer(host, st, ip_addr=ip))
     for i in range(case['onions']):
@@ -565,6 +570,10 @@ def cases_for(tier):
                                 cases.append(dict(a=list(a), b=list(b), c=list(c),
                                                   p=['good', 'good'], h=list(h), onions=onions,
                                                   own=own, tor=tor))
+                                if own == 'good' and a.count('good') >= 1:
+                                    cases.append(dict(a=list(a), b=list(b), c=list(c),
+                                                      p=['good', 'good'], h=list(h), onions=onions,
+                                                      own=own, tor=tor, o=['good', 'good']))
     seen = set()
     for alphabet, depth in HISTORY_BOUNDS[tier]:
         evs = history_events(alphabet)
